@@ -340,3 +340,22 @@ Proof.
 Qed.
 
 End Persistable.
+
+(* flattening an origin all of whose edges are serialised directly keeps exactly its edges *)
+Lemma flatten_In_persistable pfam mm fuel edges :
+  all_persistable pfam edges -> forall e, In e (flatten pfam mm fuel edges) <-> In e edges.
+Proof.
+  unfold flatten, flatten_full. intros A.
+  assert (G : forall es acc, all_persistable pfam es ->
+            forall e, In e (fst (fold_left (flatten_step pfam mm fuel) es acc)) <-> In e (fst acc) \/ In e es).
+  { induction es as [|x es IHes]; intros acc Ha e; cbn [fold_left]; [cbn; tauto|].
+    rewrite IHes by (intros y Hy; apply Ha; now right).
+    pose proof (Ha x (or_introl eq_refl)) as Px. unfold flatten_step.
+    assert (Hs : fst (match x with
+                      | EIn _ => (add_edge (fst acc) x, snd acc)
+                      | EQ q => if pfam (fst q) then (add_edge (fst acc) x, snd acc) else collect mm fuel x acc
+                      end) = add_edge (fst acc) x).
+    { destruct x as [i|q]; [reflexivity|]. cbn in Px. rewrite Px. reflexivity. }
+    rewrite Hs, In_add_edge. cbn [In]. intuition (subst; auto). }
+  intros e. rewrite (G edges ([], []) A e). cbn. tauto.
+Qed.
